@@ -310,77 +310,202 @@ def Expr.wfs : List Expr → Bool
 end
 
 /-! ### the parser (`TokenStream`, `parse_expr`, `parse_expr_seq`, `parse_expr_subscript`, `parse_expr_range`,
-    `parse_expr_atom`, `resolve_name`), producing the code's AST -/
+    `parse_num`, `parse_expr_atom`, `resolve_name`), producing the code's AST
 
-/-- `resolve_name` + the `iteratee` of `parse_expr_atom`: a type name, else the members of the group in schema
-    order; a single type is a bare `name`, several are a `choice` -/
-def resolveNameC (table : List NameInfo) (name : String) : PM' Expr := do
-  let byName := table.findIdx? (·.name == name)
-  let ids : List Nat := match byName with
-    | some i => [i]
-    | none => (List.range table.length).filter (fun i => (table[i]!).groups.contains name)
-  if ids.isEmpty then throw .unknownName
-  for i in ids do
-    let inl := (table[i]!).isInline
-    match (← get).inline with
-    | none => modify (fun s => { s with inline := some inl })
-    | some b => if b != inl then throw .mixed
-  match ids with
-  | [i] => return .name i
-  | _ => return .choice (ids.map .name)
+  A total function: the mutually recursive descent of the code is written with a recursion guard (`fuel`,
+  one unit per call); `parseFuel` is never exhausted (`Proofs/SchemaBuild.lean: parseC_ne_fuel`).
+  Every way in which the code refuses an expression is kept apart by exception class:
+  the `SyntaxError`s of `stream.err`, and the three places where the parser runs off the end of the
+  tokens or into a bad number and dies with another exception. -/
+
+/-- what `ContentMatch.parse` raises before the automaton is built -/
+inductive CErr where
+  | syntax        -- `SyntaxError` of `stream.err`: unexpected token, missing `)`, unclosed range, number expected, trailing text
+  | unknownName   -- `SyntaxError` "No node type or group … found"
+  | mixed         -- `SyntaxError` "Mixing inline and block content"
+  | noToken       -- `TypeError`: `re.match(r"\W", None)` in `parse_expr_atom` at the end of the tokens (`"a |"`, `"("`)
+  | noNumber      -- `AssertionError`: `parse_num` at the end of the tokens (`"a{"`, `"a{2,"`)
+  | badInt        -- `ValueError`: `int()` of a word that starts with a digit but is no integer literal (`"a{1a}"`)
+  | fuel          -- the recursion guard of the model (never returned by `parseC`)
+deriving Repr, DecidableEq, Inhabited
+
+/-- the reading that only knows "refused for which documented reason" (`PM/Regex.lean`) -/
+def CErr.toPErr : CErr → PErr
+  | .unknownName => .unknownName
+  | .mixed => .mixed
+  | _ => .syntax
+
+abbrev PRes (α : Type) := Except CErr (α × PState)
+
+/-- `NUMBER_REGEX.match(next)` fails: the word starts with a digit -/
+def startsWithDigit (t : String) : Bool :=
+  match t.toList with
+  | c :: _ => c.isDigit
+  | [] => false
+
+/-- `int(word)` of a word of word characters: digits, single underscores between digits -/
+def pyIntGo : List Char → Bool → Nat → Option Nat
+  | [], prevDigit, acc => if prevDigit then some acc else none
+  | c :: r, prevDigit, acc =>
+    if c.isDigit then pyIntGo r true (acc * 10 + (c.toNat - 48))
+    else if c == '_' && prevDigit then pyIntGo r false acc
+    else none
+
+def pyInt (t : String) : Option Nat := pyIntGo t.toList false 0
+
+/-- `parse_num` -/
+def pNum (st : PState) : PRes Nat :=
+  match st.toks with
+  | [] => .error .noNumber
+  | t :: r =>
+    if !startsWithDigit t then .error .syntax
+    else match pyInt t with
+      | none => .error .badInt
+      | some n => .ok (n, { st with toks := r })
+
+/-- `parse_expr_range` (the `{` is eaten): `(min, max)`, `max = none` is the code's `-1` -/
+def pRange (st : PState) : PRes (Nat × Option Nat) :=
+  match pNum st with
+  | .error e => .error e
+  | .ok (mn, st) =>
+    let mx : PRes (Option Nat) :=
+      match st.toks with
+      | t :: r =>
+        if t == "," then
+          if r.head? == some "}" then .ok (none, { st with toks := r })
+          else match pNum { st with toks := r } with
+            | .error e => .error e
+            | .ok (m, st) => .ok (some m, st)
+        else .ok (some mn, st)
+      | [] => .ok (some mn, st)
+    match mx with
+    | .error e => .error e
+    | .ok (mx, st) =>
+      match st.toks with
+      | t :: r => if t == "}" then .ok ((mn, mx), { st with toks := r }) else .error .syntax
+      | [] => .error .syntax
+
+/-- the `while True` loop of `parse_expr_subscript` -/
+def pSuffix : Nat → Expr → PState → PRes Expr
+  | 0, _, _ => .error .fuel
+  | n + 1, e, st =>
+    match st.toks with
+    | [] => .ok (e, st)
+    | t :: r =>
+      if t == "+" then pSuffix n (.plus e) { st with toks := r }
+      else if t == "*" then pSuffix n (.star e) { st with toks := r }
+      else if t == "?" then pSuffix n (.opt e) { st with toks := r }
+      else if t == "{" then
+        match pRange { st with toks := r } with
+        | .error err => .error err
+        | .ok ((mn, mx), st) => pSuffix n (.range mn mx e) st
+      else .ok (e, st)
+
+/-- `resolve_name`: a type of that name, else the members of the group in schema order -/
+def resolveIds (table : List NameInfo) (name : String) : List Nat :=
+  match table.findIdx? (·.name == name) with
+  | some i => [i]
+  | none => (List.range table.length).filter (fun i => (table[i]!).groups.contains name)
+
+/-- the `iteratee` of `parse_expr_atom` over the resolved types: `stream.inline` after them, or the mixing error -/
+def checkInline (table : List NameInfo) : List Nat → Option Bool → Except CErr (Option Bool)
+  | [], inl => .ok inl
+  | i :: is, none => checkInline table is (some (table[i]!).isInline)
+  | i :: is, some b => if b != (table[i]!).isInline then .error .mixed else checkInline table is (some b)
+
+/-- a single type is a bare `name`, several are a `choice` -/
+def namesExpr : List Nat → Expr
+  | [i] => .name i
+  | ids => .choice (ids.map .name)
+
+/-- the name branch of `parse_expr_atom` (the word `t` is the next token, `r` what follows it) -/
+def pName (table : List NameInfo) (t : String) (r : List String) (st : PState) : PRes Expr :=
+  let ids := resolveIds table t
+  if ids.isEmpty then .error .unknownName
+  else match checkInline table ids st.inline with
+    | .error e => .error e
+    | .ok inl => .ok (namesExpr ids, { toks := r, inline := inl })
+
+/-- `exprs[0] if len(exprs) == 1 else {"type": "choice", …}` -/
+def mkChoice : List Expr → Expr
+  | [e] => e
+  | es => .choice es
+
+def mkSeq : List Expr → Expr
+  | [e] => e
+  | es => .seq es
 
 mutual
-partial def parseExprC (table : List NameInfo) : PM' Expr := do
-  let first ← parseSeqC table
-  let mut acc := [first]
-  while (← eat "|") do
-    acc := acc ++ [← parseSeqC table]
-  match acc with
-  | [e] => return e
-  | _ => return .choice acc
-partial def parseSeqC (table : List NameInfo) : PM' Expr := do
-  let first ← parseSubscriptC table
-  let mut acc := [first]
-  repeat
-    match (← peek) with
-    | none => break
-    | some t => if t == ")" || t == "|" then break else acc := acc ++ [← parseSubscriptC table]
-  match acc with
-  | [e] => return e
-  | _ => return .seq acc
-partial def parseSubscriptC (table : List NameInfo) : PM' Expr := do
-  let mut e ← parseAtomC table
-  repeat
-    if (← eat "+") then e := .plus e
-    else if (← eat "*") then e := .star e
-    else if (← eat "?") then e := .opt e
-    else if (← eat "{") then
-      let n ← parseNum
-      let mut mx : Option Nat := some n
-      if (← eat ",") then
-        if (← peek) == some "}" then mx := none else mx := some (← parseNum)
-      if !(← eat "}") then throw .syntax
-      e := .range n mx e
-    else break
-  return e
-partial def parseAtomC (table : List NameInfo) : PM' Expr := do
-  if (← eat "(") then
-    let e ← parseExprC table
-    if !(← eat ")") then throw .syntax
-    return e
-  match (← peek) with
-  | some t => if isWordTok t then advance; resolveNameC table t else throw .syntax
-  | none => throw .syntax
+/-- `parse_expr`: the loop, `acc` = `exprs` so far -/
+def pChoice (table : List NameInfo) : Nat → List Expr → PState → PRes Expr
+  | 0, _, _ => .error .fuel
+  | n + 1, acc, st =>
+    match pSeq table n [] st with
+    | .error e => .error e
+    | .ok (e, st) =>
+      match st.toks with
+      | t :: r =>
+        if t == "|" then pChoice table n (acc ++ [e]) { st with toks := r }
+        else .ok (mkChoice (acc ++ [e]), st)
+      | [] => .ok (mkChoice (acc ++ [e]), st)
+/-- `parse_expr_seq` -/
+def pSeq (table : List NameInfo) : Nat → List Expr → PState → PRes Expr
+  | 0, _, _ => .error .fuel
+  | n + 1, acc, st =>
+    match pSub table n st with
+    | .error e => .error e
+    | .ok (e, st) =>
+      match st.toks with
+      | t :: _ =>
+        if t == ")" || t == "|" then .ok (mkSeq (acc ++ [e]), st)
+        else pSeq table n (acc ++ [e]) st
+      | [] => .ok (mkSeq (acc ++ [e]), st)
+/-- `parse_expr_subscript` -/
+def pSub (table : List NameInfo) : Nat → PState → PRes Expr
+  | 0, _ => .error .fuel
+  | n + 1, st =>
+    match pAtom table n st with
+    | .error e => .error e
+    | .ok (e, st) => pSuffix n e st
+/-- `parse_expr_atom` -/
+def pAtom (table : List NameInfo) : Nat → PState → PRes Expr
+  | 0, _ => .error .fuel
+  | n + 1, st =>
+    match st.toks with
+    | [] => .error .noToken
+    | t :: r =>
+      if t == "(" then
+        match pChoice table n [] { st with toks := r } with
+        | .error e => .error e
+        | .ok (e, st) =>
+          match st.toks with
+          | t' :: r' => if t' == ")" then .ok (e, { st with toks := r' }) else .error .syntax
+          | [] => .error .syntax
+      else if isWordTok t then pName table t r st
+      else .error .syntax
 end
 
+def parseFuel (toks : List String) : Nat := 4 * toks.length + 4
+
+/-- the tokens of an expression, parsed: `parse_expr` and the "Unexpected trailing text" test -/
+def parseToks (table : List NameInfo) (toks : List String) : Except CErr Expr :=
+  match pChoice table (parseFuel toks) [] { toks := toks } with
+  | .error e => .error e
+  | .ok (r, st) => if st.toks.isEmpty then .ok r else .error .syntax
+
 /-- `ContentMatch.parse` up to the AST: `none` is the empty expression (`ContentMatch.empty`) -/
-def parseC (table : List NameInfo) (expr : String) : Except PErr (Option Expr) :=
+def parseC (table : List NameInfo) (expr : String) : Except CErr (Option Expr) :=
   let toks := tokenize expr
   if toks.isEmpty then .ok none
   else
-    match (parseExprC table).run { toks := toks } with
+    match parseToks table toks with
     | .error e => .error e
-    | .ok (r, st) => if st.toks.isEmpty then .ok (some r) else .error .syntax
+    | .ok r => .ok (some r)
+
+/-- the parsed expression read as a regular expression; the empty expression matches the empty sequence only -/
+def contentRE : Option Expr → RE
+  | none => RE.eps
+  | some e => e.toRE
 
 /-- `ContentMatch.parse` without the dead-end check: the compiled automaton -/
 def compileDfa : Option Expr → Dfa
